@@ -306,6 +306,7 @@ def run(ck):
     multi_sessions(ck)
     effects_stream(ck)
     timeout_stream(ck)
+    wsp_long_message_witness(ck)
 
     return ck.finish(
         rule="(a) random request sequences of length 1..12 (thorough 1..16) biased along the DESCRIBE/SETUP/PLAY and ANNOUNCE/SETUP/RECORD "
@@ -699,3 +700,17 @@ def timeout_stream(ck):
         except Exception:
             pass
     ck.extra["read_deadline_unevaluated"] = cut
+
+
+
+# ---------------------------------------------------------------- known finding: a WSP message above ~4 KiB
+def wsp_long_message_witness(ck):
+    """wsp.DecodeRequest does ONE Read of a message and the WebSocket transport returns at most gorilla's
+    4096-byte read buffer: a wrapped request of ~5000 bytes is truncated, not answered, and the channel closes.
+    The model answers every well-formed request of any length; these fixed cases are failing inputs."""
+    long_url = lambda m: wwrap(2, m, 2, LIVE_A)[:4] + [wwrap(2, m, 2, LIVE_A)[4] + "?t=" + "a" * 5000, ""]
+    env = [[LIVE_A, 1, False]]
+    cases = [[LIVE_A, env, W_WATCH, [wmsg(W_INIT, 1), long_url(DESCRIBE), wwrap(3, OPTIONS, 3, LIVE_A)]],
+             [LIVE_A, env, W_WATCH, [wmsg(W_INIT, 1), long_url(OPTIONS), wwrap(3, DESCRIBE, 3, LIVE_A)]]]
+    ck.stream("wsp-long-message", cases, "C12_wsp_run", "C12_wsp", "C12_wsp_ok", compare=False,
+              sig=lambda c, e, o: "wsp-message-over-4k-truncated", timeout=300)
